@@ -82,6 +82,13 @@ func ruleJSON1(c *Ctx) {
 	}
 	if hasLimit(ref) {
 		c.check(hasLimit(w.JSON), "depth-limit", w.FuncDecl(w.JSON, "scanner.pushParseState"), "nesting depth limited like encoding/json", "encoding/json rejects input nested deeper than its maxNestingDepth; stdlib/json has no limit (decode accepts text the reference considers invalid, and the recursive decoder can exhaust the native stack)")
+		a, ea := maxAcceptedDepth(w, w.JSON)
+		b, eb := maxAcceptedDepth(w, ref)
+		if ea != "" || eb != "" {
+			c.undecided("depth-limit/value", w.FuncDecl(w.JSON, "scanner.pushParseState"), "cannot derive the deepest accepted nesting: "+ea+eb)
+		} else {
+			c.check(a == b, "depth-limit/value", w.FuncDecl(w.JSON, "scanner.pushParseState"), fmt.Sprintf("deepest accepted nesting %d, as in encoding/json", a), fmt.Sprintf("stdlib/json accepts nesting up to %d, encoding/json up to %d: a text of depth %d is valid for one and invalid for the other", a, b, max64(a, b)))
+		}
 	}
 }
 
@@ -590,3 +597,80 @@ func ruleJSON5(c *Ctx) {
 }
 
 var _ = types.Typ
+
+
+func max64(a, b int64) int64 {
+	if a > b {
+		return a
+	}
+	return b
+}
+
+// maxAcceptedDepth derives, from pushParseState, the deepest nesting the
+// scanner accepts: the comparison of len(parseState) with a constant, whether
+// it happens before or after the push, and on which side of it success lies.
+func maxAcceptedDepth(w *World, p *packages.Package) (int64, string) {
+	fd := w.FuncDecl(p, "scanner.pushParseState")
+	if fd == nil {
+		return 0, "pushParseState not found"
+	}
+	var appendPos, cmpPos token.Pos
+	var cmp *ast.BinaryExpr
+	var ifs *ast.IfStmt
+	ast.Inspect(fd.Body, func(n ast.Node) bool {
+		switch x := n.(type) {
+		case *ast.CallExpr:
+			if IsBuiltinCall(p, x, "append") && !appendPos.IsValid() {
+				appendPos = x.Pos()
+			}
+		case *ast.IfStmt:
+			if b, ok := ast.Unparen(x.Cond).(*ast.BinaryExpr); ok && strings.Contains(w.Src(b.X), "len(") && cmp == nil {
+				cmp, ifs, cmpPos = b, x, x.Pos()
+			}
+		}
+		return true
+	})
+	if cmp == nil || !appendPos.IsValid() {
+		return 0, "no length comparison / append in pushParseState"
+	}
+	k, ok := ConstInt(p, cmp.Y)
+	if !ok {
+		return 0, "limit is not a constant"
+	}
+	// does the if-body reject (call error) or accept (return successState)?
+	bodyRejects := containsNode(ifs.Body, func(n ast.Node) bool {
+		call, ok := n.(*ast.CallExpr)
+		return ok && Callee(p, call) != nil && Callee(p, call).Name() == "error"
+	})
+	// largest len for which the push is accepted, at the moment of comparison
+	var okLen int64
+	switch cmp.Op {
+	case token.LEQ:
+		okLen = k // cond true = len <= k
+		if bodyRejects {
+			return 0, "unexpected polarity"
+		}
+	case token.LSS:
+		okLen = k - 1
+		if bodyRejects {
+			return 0, "unexpected polarity"
+		}
+	case token.GTR:
+		okLen = k // rejects when len > k
+		if !bodyRejects {
+			return 0, "unexpected polarity"
+		}
+	case token.GEQ:
+		okLen = k - 1
+		if !bodyRejects {
+			return 0, "unexpected polarity"
+		}
+	default:
+		return 0, "unsupported comparison"
+	}
+	if cmpPos < appendPos {
+		// compared before the push: the stack is one deeper afterwards
+		return okLen + 1, ""
+	}
+	return okLen, ""
+}
